@@ -178,6 +178,26 @@ func registerIntrinsics(e *Engine) {
 		fr.p.eng.noteUse(fmt.Sprintf("tasks: up to %d forced pre-emptions at sync.Mutex.Unlock", fr.p.preempt))
 		return nil
 	})
+	reg("zzClockHorizon", func(fr *Frame, a []Value) Value {
+		fr.p.clockHorizon = a[0].(*smt.T)
+		fr.p.eng.noteUse("assume: the whole run takes less wall-clock time than the stated horizon (no cache entry or deadline expires by the mere passage of time)")
+		return nil
+	})
+	// zzTurn(id): a request-level scheduling point of task id. Any other
+	// runnable task may go first (fork); the order in which tasks pass their
+	// turn points is recorded in the replay vector so that the native twin
+	// serves the requests in the same order.
+	reg("zzTurn", func(fr *Frame, a []Value) Value {
+		p := fr.p
+		if !p.turnSched {
+			p.turnSched = true
+			p.eng.noteUse("tasks: every interleaving of the tasks at request granularity (zzTurn points); code between two requests of one task runs without interruption unless it blocks")
+		}
+		p.yield()
+		p.newInput("zz_turn", "", a[0].(*smt.T))
+		return nil
+	})
+	reg("zzTurnDone", func(fr *Frame, a []Value) Value { return nil })
 	reg("zzNote", func(fr *Frame, a []Value) Value { fr.p.eng.noteUse("note: " + concStr(a[0])); return nil })
 	reg("zzRedirect", func(fr *Frame, a []Value) Value {
 		name := concStr(a[0])
